@@ -118,3 +118,35 @@ pub fn opcode(o: &OpCode) -> J {
 pub fn ops(v: &[OpCode]) -> J {
     J::Array(v.iter().map(opcode).collect())
 }
+
+
+fn u256_from_limbs(v: &J) -> U256 {
+    let mut b = [0u8; 32];
+    if let Some(a) = v.as_array() {
+        for (i, x) in a.iter().enumerate().take(32) {
+            b[i] = x.as_u64().unwrap_or(0) as u8;
+        }
+    }
+    U256::from_le_bytes(b)
+}
+
+/// inverse of `opcode`: instruction records as the specification prints them
+pub fn opcode_from_json(o: &J) -> Option<OpCode> {
+    use OpCode::*;
+    let u16f = |k: &str| o.get(k).and_then(|x| x.as_u64()).map(|x| x as u16);
+    Some(match o.get("op")?.as_str()? {
+        "Noop" => Noop, "Add" => Add, "Sub" => Sub, "Mul" => Mul, "Div" => Div, "Rem" => Rem,
+        "Exp" => Exp(o.get("k")?.as_u64()? as u8),
+        "And" => And, "Or" => Or, "Xor" => Xor, "Not" => Not, "Eql" => Eql, "Lt" => Lt, "Gt" => Gt, "Shl" => Shl, "Shr" => Shr,
+        "Hash" => Hash(u16f("n")?), "SigEOk" => SigEOk(u16f("n")?),
+        "Store" => Store, "Load" => Load, "StoreImm" => StoreImm(u16f("a")?), "LoadImm" => LoadImm(u16f("a")?),
+        "VRef" => VRef, "VAppend" => VAppend, "VEmpty" => VEmpty, "VLength" => VLength, "VSlice" => VSlice, "VSet" => VSet, "VPush" => VPush, "VCons" => VCons,
+        "BRef" => BRef, "BAppend" => BAppend, "BEmpty" => BEmpty, "BLength" => BLength, "BSlice" => BSlice, "BSet" => BSet, "BPush" => BPush, "BCons" => BCons,
+        "Bez" => Bez(u16f("k")?), "Bnz" => Bnz(u16f("k")?), "Jmp" => Jmp(u16f("k")?), "Loop" => Loop(u16f("n")?, u16f("m")?),
+        "ItoB" => ItoB, "BtoI" => BtoI, "TypeQ" => TypeQ,
+        "PushB" => PushB(o.get("b")?.as_array()?.iter().map(|x| x.as_u64().unwrap_or(0) as u8).collect()),
+        "PushI" => PushI(u256_from_limbs(o.get("i")?)), "PushIC" => PushIC(u256_from_limbs(o.get("i")?)),
+        "Dup" => Dup,
+        _ => return None,
+    })
+}
